@@ -11,7 +11,7 @@ use tantivy::directory::{
     WatchCallbackList, WatchHandle, WritePtr,
 };
 
-#[derive(Clone, Debug, PartialEq, Eq)]
+#[derive(Clone, Debug, PartialEq, Eq, serde::Serialize, serde::Deserialize)]
 pub enum Op {
     Create { path: String, ino: usize },
     Write { path: String, ino: usize, data: Vec<u8> },
@@ -67,7 +67,7 @@ impl Op {
     }
 }
 
-#[derive(Clone, Debug)]
+#[derive(Clone, Debug, serde::Serialize, serde::Deserialize)]
 pub struct LogEntry {
     pub tid: String,
     pub op: Op,
